@@ -122,13 +122,59 @@ func tighten(as []*Term) []*Term {
 			lt[pair{t.Args[0], t.Args[1]}] = true
 		}
 	}
-	if len(lt) == 0 {
-		return as
-	}
 	out := as
 	have := map[*Term]bool{}
 	for _, t := range as {
 		have[t] = true
+	}
+	// a < b+1 gives a < b or a = b (valid for every a, b also when b+1 wraps: then a < b+1 is
+	// false). Stated as a clause so that the case split an invariant `forall k :: lo <= k < i` needs
+	// at `i+1` is propositional instead of a bit-level derivation.
+	for _, t := range as {
+		// likewise a <= b+1, written not (b+1 < a), gives a <= b or a = b+1 (if b+1 wraps to the
+		// smallest number, a <= b+1 means a = b+1)
+		if t.Op == "not" && t.Args[0].Op == "bvslt" {
+			c, a := t.Args[0].Args[0], t.Args[0].Args[1]
+			if c.Op == "bvadd" && len(c.Args) == 2 {
+				one := BVLitI(1, c.Sort.W)
+				var b *Term
+				if c.Args[1] == one {
+					b = c.Args[0]
+				} else if c.Args[0] == one {
+					b = c.Args[1]
+				}
+				if b != nil {
+					cl := Or(Not(BVSlt(b, a)), Eq(a, c))
+					if !have[cl] && !cl.IsTrue() {
+						have[cl] = true
+						out = append(out, cl)
+					}
+				}
+			}
+			continue
+		}
+		if t.Op != "bvslt" {
+			continue
+		}
+		a, c := t.Args[0], t.Args[1]
+		if c.Op != "bvadd" || len(c.Args) != 2 {
+			continue
+		}
+		var b *Term
+		one := BVLitI(1, c.Sort.W)
+		switch {
+		case c.Args[1] == one:
+			b = c.Args[0]
+		case c.Args[0] == one:
+			b = c.Args[1]
+		default:
+			continue
+		}
+		cl := Or(BVSlt(a, b), Eq(a, b))
+		if !have[cl] && !cl.IsTrue() {
+			have[cl] = true
+			out = append(out, cl)
+		}
 	}
 	for _, t := range as {
 		if t.Op != "not" || t.Args[0].Op != "bvslt" {
